@@ -658,7 +658,7 @@ func makeHistory(probe string, k famKey, fe *famEntry, exts extList, hseed int64
 			add(V["reqvar-7"])
 			add(I["missing-required-variable"])
 			add(V["reqvar-8"])
-			names := []string{"wrong-variable-json-type-string", "wrong-variable-json-type-object", "wrong-variable-json-type-list", "null-required-variable"}
+			names := []string{"wrong-variable-json-type-string", "wrong-variable-json-type-object", "wrong-variable-json-type-list", "null-required-variable", "required-variable-no-variables-member", "required-variable-no-variables-member"}
 			add(I[names[r.Intn(len(names))]])
 			add(V["reqvar-7"])
 		},
